@@ -565,6 +565,31 @@ func cases(tier, path string) {
 			emit(g.Struct(s, depth, nil), "random")
 		}
 	}
+	// deep nesting: self-recursive interface chains (e.g. RichText inside RichText) far beyond
+	// what random generation reaches; "nested values to any depth"
+	deep := []int{40, 70, 130, 300}
+	if full {
+		deep = []int{40, 63, 64, 65, 70, 130, 300, 1000, 4000}
+	}
+	nchains := 0
+	for _, s := range structs {
+		if nchains >= 3 || !s.Registered {
+			continue
+		}
+		fi := g.SelfField(s)
+		if fi < 0 {
+			continue
+		}
+		nchains++
+		for _, n := range deep {
+			pv := g.Chain(s, fi, n)
+			r, fresh := w.enc(s, pv, "deep-chain")
+			if fresh && r.class == "ok" {
+				w.decN(s, r.data, "roundtrip")
+				w.decU(r.data, nil, "roundtrip")
+			}
+		}
+	}
 	// msg_container: hand-written Marshaler/Unmarshaler
 	for k := 0; k < 12; k++ {
 		n := []int{0, 1, 2, 3, 5}[g.R.Intn(5)]
